@@ -32,7 +32,8 @@ CONFIG = {
                             'pairs.documented': 110, 'rules.distinct-fired': 70, 'renumbered.compared': 40000, 'tautomers.generated': 1500,
                             'pairs.geminal': 100, 'warm-cache.compared': 30000, 'inputs.quaternized': 600}},
 }
-EXTRA = ['CCN1C=C(O)[N+](C)=C1', 'CCN1C=C(N)[N+](C)=C1', '[2H]CO', 'C[NH+]([2H])C', '[2H]C([H])([H])O', '[2H]C=C', 'CC([2H])O', '[3H]CC', '[2H]C([2H])O', 'C[C@H]([2H])O', '[2H]c1ccccc1', 'CC([2H])=O',
+EXTRA = ['C[NH2+][Hg]Cl', '[NH3+]CCC(C[NH2+]C)C([O-])=O', '[O-]C(=O)CC(C([O-])=O)C[NH3+]', 'C[NH2+]CCC[NH3+].[Cl-]', 'C=1(C([O-])=C2C=CC(C=[NH+]C)=C2)C=CC([15NH3+])=CC=1', 'C[NH+](C)CC(C[NH3+])CC([O-])=O',
+         'CCN1C=C(O)[N+](C)=C1', 'CCN1C=C(N)[N+](C)=C1', '[2H]CO', 'C[NH+]([2H])C', '[2H]C([H])([H])O', '[2H]C=C', 'CC([2H])O', '[3H]CC', '[2H]C([2H])O', 'C[C@H]([2H])O', '[2H]c1ccccc1', 'CC([2H])=O',
          'N#Cc1ccc2[nH]ccc2c1', 'N#CC=CO', 'C#CC=CNC', 'N#Cc1ccc(O)cc1', 'OC=CC=C=C', 'N#CC(C)=C(C)O', 'C#Cc1ccc2[nH]c(C)cc2c1', 'N#CC=CC=CN', 'OC(C)=CC=C=CC',
          'CN(=O)=O', 'C[N+](=O)[O-]', 'CN=[N+]=[N-]', 'CN=N#N', 'C[S+](C)[O-]', 'CS(C)=O', 'O=[N+]([O-])c1ccccc1', 'C[N+](C)(C)[O-]',
          'CC(=O)[O-].[Na+]', 'C[NH3+].[Cl-]', 'CC(O)=CC', 'CC(=O)CC(C)=O', 'Oc1ccccn1', 'O=c1cccc[nH]1', 'Oc1ncnc2[nH]cnc12', 'NC(=N)N',
@@ -276,7 +277,14 @@ def check_ops(ctx, m, src, cfg, rng, tautomer_fix_ok):
             continue
         bad = r.check_valence()
         if bad:
-            ctx.violation('valence-error-produced/%s' % name, '%s -> %s atoms %s' % (src, r, bad), w)
+            tag = ''
+            if name in ('standardize', 'canonicalize') and all(
+                    n in m._atoms and not r._atoms[n].is_forming_single_bonds and r._atoms[n].charge > m._atoms[n].charge and
+                    any(b.order == 8 and r._atoms[k].atomic_number == 7 for k, b in r._bonds[n].items()) for n in bad):
+                # recorded finding: rule 19 turns a covalent metal - ammonium nitrogen bond into N~[M+]; for metals whose tables do not list
+                # that cation state ([Hg+]Cl) the library logs 'standardization failed' and returns the molecule
+                tag = '/metal-cation-state-of-rule-19-not-in-the-valence-tables'
+            ctx.violation('valence-error-produced/%s%s' % (name, tag), '%s -> %s atoms %s' % (src, r, bad), w)
             continue
         if name == 'neutralize':
             if tot[1] - base_tot[1] != tot[2] - base_tot[2]:
@@ -545,7 +553,8 @@ def worker(ctx):
                     fired[text if idx == -1 else 'rule %d: %s' % (idx, text)] += 1
             except Exception:
                 pass
-            check_ops(ctx, v, name, cfg, rng, tautomer_fix_ok=is_corpus)
+            # hand-made inputs are few: more renumberings each
+            check_ops(ctx, v, name, dict(cfg, k_renum=max(4, cfg['k_renum'])) if s in hand_made else cfg, rng, tautomer_fix_ok=is_corpus)
         if s in hand_made or ntaut < cfg['n_taut'] // ctx.nshards + 1:
             ntaut += s not in hand_made
             check_tautomers(ctx, m, s, cfg, rng, numbering=True)
